@@ -13,6 +13,7 @@
 (*    Consume       the protocol layer takes the offered header            *)
 (*    RetryReq / KeepaliveReq   requests to send LRTY / a keep-alive       *)
 (*    LinkDown(reset) / LinkUp  `enable` falls / rises, USB reset          *)
+(*    ResetUp       a USB reset strobe while `enable` stays high           *)
 (*  Dut  (observable reactions of the receiver; Ref says which are legal)  *)
 (*    TxStart       a link command starts to be presented to the PHY       *)
 (*    TxEnd(cmd, sub)  its command word has been handed to the PHY         *)
@@ -142,7 +143,7 @@ LinkDown(reset) ==
     /\ ev' = [e |-> "down", reset |-> reset]
     /\ enabled' = FALSE
     /\ pendRst' = reset
-    /\ cur' = IF cur = "none" THEN "none" ELSE "stale"
+    /\ cur' = IF cur = "none" THEN "none" ELSE IF cur = "stale_up" THEN "stale_up" ELSE "stale"
     /\ UNCHANGED <<expSeq, buf, acks, advPending, credOwed, nextCred, adv, ignore, lbadOwed,
                    lrtyOwed, lrtyMay, kaOwed, kaMay, gvars>>
 
@@ -153,6 +154,22 @@ UsbReset ==
     /\ pendRst' = TRUE
     /\ UNCHANGED <<enabled, expSeq, buf, acks, advPending, credOwed, nextCred, adv, ignore, lbadOwed,
                    lrtyOwed, lrtyMay, kaOwed, kaMay, cur, gvars>>
+
+\* A USB reset strobe while the link is (still) up -- USB3LinkLayer asserts usb_reset on the first cycle of
+\* a warm reset seen in U0, before link_ready falls.  It is a restart point: the state is fresh, the sequence
+\* restarts at 0 and the advertisement LGOOD(7) and one credit per buffer are owed again.  A command the DUT
+\* had already committed to (in flight) may finish; it discharges nothing.
+ResetUp ==
+    /\ enabled
+    /\ ev' = [e |-> "reset_up"]
+    /\ expSeq' = 0 /\ pendRst' = FALSE
+    /\ buf' = <<>>
+    /\ acks' = <<7>> /\ advPending' = TRUE
+    /\ credOwed' = NBuf /\ nextCred' = 0 /\ adv' = 0
+    /\ ignore' = FALSE /\ lbadOwed' = FALSE /\ lrtyOwed' = FALSE /\ kaOwed' = FALSE
+    /\ cur' = IF cur = "none" THEN "none" ELSE "stale_up"
+    /\ gAcc' = <<>> /\ gDel' = <<>> /\ gGood' = <<>> /\ gAdv' = 7 /\ gCred' = <<>> /\ gRecov' = FALSE
+    /\ UNCHANGED <<enabled, lrtyMay, kaMay>>
 
 \* `enable` rises: the receive state is fresh; the sequence-number advertisement and one credit
 \* per buffer are owed.  (C38)
@@ -211,9 +228,10 @@ TxEndFresh(cmd, sub) ==
     /\ kaMay'    = IF cmd = LUP THEN FALSE ELSE kaMay
     /\ UNCHANGED <<enabled, expSeq, pendRst, buf, ignore, gAcc, gDel, gAdv, gRecov>>
 
-\* A stale command may only complete while the link is still down; it discharges nothing.
+\* A stale command may only complete while the link is still down (or, if it was in flight at a reset
+\* with the link up, whenever it is done); it discharges nothing.
 TxEndStale ==
-    /\ cur = "stale" /\ ~enabled
+    /\ (cur = "stale" /\ ~enabled) \/ cur = "stale_up"
     /\ ev' = [e |-> "txe_stale"]
     /\ cur' = "none"
     /\ UNCHANGED <<enabled, expSeq, pendRst, buf, acks, advPending, credOwed, nextCred, adv, ignore,
@@ -240,7 +258,7 @@ Quiet ==
 
 TypeOK == /\ expSeq \in 0..7 /\ credOwed \in 0..NBuf /\ adv \in 0..NBuf /\ nextCred \in 0..(NBuf-1)
           /\ Len(buf) <= NBuf
-          /\ cur \in {"none", "fresh", "stale"}
+          /\ cur \in {"none", "fresh", "stale", "stale_up"}
 
 \* C37: buffered + advertised never exceed the buffer count (credits are conserved).
 CreditConservation == enabled => Len(buf) + adv + credOwed = NBuf
@@ -266,7 +284,7 @@ LcrdLetters == enabled =>
 LbadOnlyWhenIgnoring == lbadOwed => ignore
 
 \* C38: right after the link came up the state is fresh.
-FreshAfterUp == [][(ev'.e = "up") =>
+FreshAfterUp == [][(ev'.e = "up" \/ ev'.e = "reset_up") =>
     /\ buf' = <<>> /\ ~ignore' /\ ~lbadOwed' /\ ~lrtyOwed' /\ ~kaOwed'
     /\ acks' = <<Prev(expSeq')>> /\ advPending' /\ credOwed' = NBuf /\ nextCred' = 0 /\ adv' = 0]_vars
 
@@ -274,5 +292,5 @@ FreshAfterUp == [][(ev'.e = "up") =>
 AdvFirst == (enabled /\ advPending) => (gGood = <<>> /\ gCred = <<>>)
 
 \* C38: a sequence restart after USB reset.
-ResetRestartsSequence == [][(ev'.e = "up" /\ pendRst) => (expSeq' = 0 /\ gAdv' = 7)]_vars
+ResetRestartsSequence == [][((ev'.e = "up" /\ pendRst) \/ ev'.e = "reset_up") => (expSeq' = 0 /\ gAdv' = 7)]_vars
 =============================================================================
